@@ -435,6 +435,11 @@ def main(argv=None):
     for k, v in extra_cov.items():
         if k not in ("evaluations", "distinct_nontrivial", "samples"):
             coverage[k] = v
+    if hasattr(mod, "post"):
+        try:
+            coverage.update(mod.post(coverage) or {})
+        except Exception:
+            coverage["post_error"] = traceback.format_exc()[-500:]
     if extra_cov.get("samples") and samples:
         coverage["extra_samples"] = extra_cov["samples"]
     ev = dict(property_id=pid, tier=tier, seed=seed, level="exploration", coverage=coverage,
